@@ -379,7 +379,7 @@ Definition normalize_base (cwd inp : chars) : presult chars :=
 Definition normalize_uri (refp base : chars) : presult chars :=
   match parse_or_empty refp with
   | POk r0 =>
-      let r := clean_path_field r0 in
+      let r := drop_file_query (clean_path_field r0) in      (* a local file has no query *)
       match new_ref (print_url r) with
       | POk rr =>
           if is_canonical rr then POk (print_url r)
